@@ -142,6 +142,10 @@ fn main() {
             std::process::exit(drive::run_check(prop, &refs, tier, &root, seed));
         }
         Some("replay") => std::process::exit(replay::replay(&args[2])),
+        Some("det-seq") => {
+            let idxs: Vec<usize> = args[2..].iter().filter_map(|a| a.parse().ok()).collect();
+            families::determinism::det_seq(&idxs);
+        }
         Some("det-one") => {
             families::determinism::det_one(args[2].parse().unwrap(), args[3].parse().unwrap());
         }
